@@ -1,4 +1,6 @@
 pub mod component;
+pub mod hostile;
+pub mod lifecycle;
 pub mod lockstep;
 
 use crate::common::{Report, Rng};
@@ -33,6 +35,10 @@ pub fn dispatch(engine: &str, ctx: &Ctx, rng: Rng, rep: &mut Report) {
         "keys" => component::run_keys(ctx, rng, rep),
         "policy" => component::run_policy(ctx, rng, rep),
         "lockstep" => lockstep::run(ctx, rng, rep),
+        "hostile" => hostile::run(ctx, rng, rep),
+        "close" => lifecycle::run_close(ctx, rng, rep),
+        "waitrace" => lifecycle::run_waitrace(ctx, rng, rep),
+        "grid" => lifecycle::run_grid(ctx, rng, rep),
         other => rep.inconclusive(format!("unknown engine {other}")),
     }
 }
